@@ -920,7 +920,27 @@ def gen_modaxis_cases(rng, n):
                 evs2.append({'kind': 'delay', 'delay': 5e-3})
             blocks.append(evs2)
         flip = rng.random() < 0.3
-        cs.append({'stream': 'modaxis', 'sys': sysd, 'blocks': blocks, 'axis': rng.choice(gl.CHN), 'flip': flip,
+        axis = rng.choice(gl.CHN)
+        # planted sharing of one library id between two axes: in the same block, or only in different blocks where the
+        # block holding it on one axis has NO gradient on the other axis (e.g. identical x and y spoilers)
+        plant = rng.choice(['none', 'none', 'same', 'different', 'different'])
+        if plant != 'none':
+            g = dict(rng.choice(pool))
+            a_ax = axis
+            b_ax = rng.choice([ch for ch in gl.CHN if ch != a_ax])
+            c_ax = [ch for ch in gl.CHN if ch not in (a_ax, b_ax)][0]
+            if rng.random() < 0.5:
+                a_ax, b_ax = b_ax, a_ax          # the flipped axis is the one of the lonely occurrence / of the pair
+            third = [dict(p, ch=c_ax) for p in pool if p['ch'] == c_ax]
+            if plant == 'same':
+                blk = [dict(g, ch=a_ax), dict(g, ch=b_ax)]
+                blocks.insert(rng.randint(0, len(blocks)), blk)
+            else:
+                blk_a = [dict(g, ch=a_ax)] + ([dict(rng.choice(third))] if third and rng.random() < 0.5 else [])
+                blk_b = [dict(g, ch=b_ax)] + ([dict(rng.choice(third))] if third and rng.random() < 0.5 else [])
+                blocks.insert(rng.randint(0, len(blocks)), blk_a)
+                blocks.insert(rng.randint(0, len(blocks)), blk_b)
+        cs.append({'stream': 'modaxis', 'sys': sysd, 'blocks': blocks, 'axis': axis, 'flip': flip, 'plant': plant,
                    'mod': -1 if flip else rng.choice([-1, 2, 0.5, -0.25, 0, 3, 1]), 'cache': rng.random() < 0.6,
                    'warm': rng.random() < 0.7, 'twice': rng.random() < 0.2})
     return cs
@@ -1052,6 +1072,12 @@ def _run_modaxis(ctx, cases, pp, model_jobs):
         ctx.evaluated(('modaxis', str(c)), nontrivial=err is None and bool(sel))
         ctx.count('modaxis.%s%s%s' % ('shared' if shared else 'plain', '.cache' if c['cache'] else '',
                                       '.warm' if c['warm'] and c['cache'] else ''))
+        if shared:
+            # does a block that plays the shared id on ANOTHER axis also play a gradient on the selected axis?
+            coexist = any(v[2 + col] != 0 and any(v[2 + j] in (sel & oth) for j in range(3) if j != col)
+                          for v in evtab.values())
+            ctx.count('modaxis.shared.%s' % ('other-axis-use-in-a-block-with-the-axis' if coexist else
+                                             'other-axis-use-only-in-blocks-without-the-axis'))
         if shared:
             if not isinstance(err, RuntimeError):
                 ctx.fail('C18/mod-axis-shared-id-not-refused', c, {'exception': repr(err)})
